@@ -30,7 +30,9 @@ RULE = (
     "localised to another engine, foreign valid user re-signed, authentic replay from another "
     "engine that knows the same user, plaintext scoped PDU under privacy credentials, Report "
     "PDUs (unauthenticated) carrying data bindings and the expected request-id, usmStats "
-    "Reports. Oracle: outcome is an exception, or a result equal in type and value to the "
+    "Reports; multi-step attacks (forged notInTimeWindow / unknownEngineID report or a foreign "
+    "engine's message, then a spoofed discovery steering the client to another engine that "
+    "knows the user, then relaying). Oracle: outcome is an exception, or a result equal in type and value to the "
     "authentic one. All trials run under the logical step budget. Distinct by (response, "
     "fault kind, position)."
 )
@@ -129,6 +131,19 @@ class Target:
         finally:
             self.w.set_responder(self.w.agent.handle)
 
+    def try_attack(self, responder):
+        """A stateful man in the middle: responder(request bytes) -> bytes | None."""
+        self.w.set_responder(responder)
+        self.w.seam.reset(budget=12)
+        try:
+            try:
+                return budget.run_budgeted(lambda: call(self.w, self.op, self.variant), 600000, light=True)
+            except rig.BudgetExceeded:
+                return "exc", "request budget exceeded", 0
+        finally:
+            self.w.set_responder(self.w.agent.handle)
+            self.w.seam.reset()
+
     # --- forgery helpers (never use the victim's keys) ------------------------
 
     def altered_pdu(self, ptype=ber.PDU_RESPONSE):
@@ -217,6 +232,44 @@ def forgeries(t):
     yield "boots-time-rewritten-digest-kept", t.build(t.msg["flags"], None if "encrypted" in t.msg else alt, encrypted=t.msg.get("encrypted"), digest=orig_digest, priv=t.msg["usm"]["priv"], usm_over={"boots": 9, "time": 99})
 
 
+def attacks(t):
+    """
+    Multi-step attacks: an unauthenticated trigger, then a spoofed discovery
+    that steers the client to ANOTHER engine which knows the same user (the
+    attacker only relays; it never uses the victim's keys).  Yields
+    (name, responder).
+    """
+    db_b = {k: FORGED for k in DB}
+    agent_b = agent_mod.Agent(db_b, engine_id=t.engine_b, users=[t.user], clock=t.w.agent.clock)
+
+    def make(trigger):
+        state = {"triggered": False}
+
+        def responder(req):
+            try:
+                m = ber.decode_message(req)
+            except ber.BerError:
+                return None
+            usm = m["usm"]
+            if usm["engine_id"] == b"" and usm["user"] == b"":
+                return agent_b.handle(req)  # spoofed discovery: "I am engine B"
+            if usm["engine_id"] == t.engine_b:
+                return agent_b.handle(req)  # relayed to the real engine B
+            # the client still addresses engine A: pull the trigger
+            state["triggered"] = True
+            if trigger == "replay-b":
+                raw = t.build(1, t.altered_pdu(), engine=t.engine_b, digest=b"\x00" * 12)
+                return t.sign(raw, t.user.auth[0], t.user.auth_key(t.engine_b))
+            rep = t.altered_pdu(ber.PDU_REPORT)
+            rep["varbinds"] = [(ber.USM_STATS[trigger], ("c32", 7))]
+            return t.build(0, rep)
+
+        return responder
+
+    for trigger in ("not_in_window", "unknown_engine", "replay-b"):
+        yield "spoofed-rediscovery-after-" + trigger, make(trigger)
+
+
 def judge(R, t, fault, pos, data, kind, val, steps):
     case = {"level": t.level, "op": t.op, "variant": t.variant, "fault": fault, "pos": pos, "datagram": "hex:" + data.hex()}
     if kind == "over":
@@ -243,7 +296,9 @@ def judge(R, t, fault, pos, data, kind, val, steps):
         # bit flips keep all offsets: read the flags octet where it was
         if len(data) == len(t.resp):
             flags = data[t.msg["flags_off"]]
-    if flags is not None and not flags & 1:
+    if fault.startswith("spoofed-rediscovery"):
+        mech = "unauthenticated-trigger-rediscovers"
+    elif flags is not None and not flags & 1:
         mech = "report-as-data" if report else "auth-flag-downgrade"
     elif engine is not None and engine != t.engine:
         mech = "foreign-engine-accepted"
@@ -319,6 +374,14 @@ def run(R):
             R.mon["forgery_trials"] += 1
             R.mon["forgery_" + name] += 1
             judge(R, t, name, None, data, kind, val, steps)
+        for name, responder in attacks(t):
+            idx += 1
+            if not R.mine(idx):
+                continue
+            kind, val, steps = t.try_attack(responder)
+            R.case(("attack", level, op, var, name), True)
+            R.mon["multistep_attack_trials"] += 1
+            judge(R, t, name, None, b"", kind, val, steps)
         if not complete:
             break
     R.exhaustive = complete
